@@ -474,6 +474,82 @@ def _rhist_real_runs(case, r, got, Responder):
     return "|".join(got), None
 
 
+# ------------------------------------------------------------------ (h) rejections on the REAL Local runner
+
+def reject_kw(case):
+    kw = dict(case["extra"])
+    kw.update(case["bad"])
+    if case["async_disown"] in ("kw", "mixed"):
+        kw["asynchronous"] = True
+    if case["async_disown"] == "kw":
+        kw["disown"] = True
+    return kw
+
+
+def reject_cfg(case):
+    return {"disown": True} if case["async_disown"] == "mixed" else \
+        {"asynchronous": True, "disown": True} if case["async_disown"] == "cfg" else {}
+
+
+def reject_line(case):
+    return run_line({"cmd": "CMD", "kw": reject_kw(case), "cfg": reject_cfg(case), "cfg_timeout": None, "penv": PENV})
+
+
+def check_reject_real(case):
+    """unknown options / asynchronous+disown on the real `Local` (through Context.run, Context.sudo, Local(ctx).run): the
+    exception that escapes is the documented TypeError / ValueError naming the option, nothing is started (the command
+    would leave a marker file), no thread and no file descriptor is left behind"""
+    import gc
+    import shutil
+    import tempfile
+    import threading
+    from invoke import Context, Config
+    from invoke.runners import Local
+    tmp = tempfile.mkdtemp(prefix="verif-c15-")
+    marker = os.path.join(tmp, "started")
+    try:
+        c = Context(Config(overrides={"run": reject_cfg(case)}, lazy=True))
+        call = {"ctx.run": c.run, "ctx.sudo": c.sudo, "local.run": Local(c).run}[case["via"]]
+        gc.collect()
+        threads0, fds0 = threading.active_count(), len(os.listdir("/proc/self/fd"))
+        exc = None
+        sink = io.StringIO()
+        with contextlib.redirect_stdout(sink), contextlib.redirect_stderr(sink):
+            try:
+                res = call("touch " + marker, in_stream=False, **reject_kw(case))
+                if res is not None and hasattr(res, "join"):
+                    res.join()
+            except BaseException as e:  # noqa
+                exc = e
+        gc.collect()
+        threads1, fds1 = threading.active_count(), len(os.listdir("/proc/self/fd"))
+        started = os.path.exists(marker)
+    finally:
+        shutil.rmtree(tmp, ignore_errors=True)
+    line = "err " + type(exc).__name__ if exc is not None else "ok"
+    msg = str(exc) if exc is not None else ""
+    ok_type = isinstance(exc, TypeError) and any(repr(n) in msg or n in msg for n in case["bad"])
+    ok_value = isinstance(exc, ValueError) and "asynchronous" in msg and "disown" in msg
+    what = "%s(..., %s) with run config %r" % (case["via"], ", ".join("%s=%r" % kv for kv in reject_kw(case).items()), reject_cfg(case))
+    why = None
+    if case["bad"] and case["async_disown"] != "no":
+        if not (ok_type or ok_value):
+            why = "%s: must be rejected with the documented TypeError naming the option or ValueError naming asynchronous/disown; got %s: %s" % (
+                what, type(exc).__name__, msg[:120])
+    elif case["bad"]:
+        if not ok_type:
+            why = "%s: the unknown option must be rejected with TypeError naming it (one of %r); got %s: %s" % (
+                what, sorted(case["bad"]), type(exc).__name__, msg[:120])
+    elif not ok_value:
+        why = "%s: asynchronous together with disown must be rejected with ValueError naming them; got %s: %s" % (
+            what, type(exc).__name__, msg[:120])
+    if why is None and started:
+        why = "%s: was rejected, but the command had been started (marker file exists)" % what
+    if why is None and (threads1 > threads0 or fds1 > fds0):
+        why = "%s: rejected, but threads %d -> %d, open fds %d -> %d" % (what, threads0, threads1, fds0, fds1)
+    return line, why
+
+
 def hist_lines(case):
     return [run_line({"cmd": st["cmd"], "kw": st["kw"], "cfg": case["cfg"], "cfg_timeout": case["cfg_timeout"], "penv": case["penv"]})
             for st in case["steps"] if st["do"] == "run"]
@@ -1123,6 +1199,8 @@ def replay(case):
         line, why = check_rhist(case, _defaults())
     elif k == "rhist_real":
         line, why = check_rhist_real(case)
+    elif k == "reject_real":
+        line, why = check_reject_real(case)
     else:
         return True, "unknown case kind"
     return why is None, why or "ok: %s" % line[:300]
@@ -1384,6 +1462,13 @@ def run(ctx):
         cases.append({"kind": "rhist_real", "runs": [{"w": "absent" if k else ["y\n"], "x": x, "env": e, "replace": rp}
                                                       for k, (x, e, rp) in enumerate(seq)]})
 
+    # (h) rejections on the real Local
+    for via in ("ctx.run", "ctx.sudo", "local.run"):
+        for bad, ad in (({"bogus": 1}, "no"), ({"bogus": None}, "no"), ({"timeuot": 5}, "no"), ({"hidee": True, "zzz": None}, "no"),
+                        ({}, "kw"), ({}, "cfg"), ({}, "mixed"), ({"bogus": 1}, "kw"), ({"in_streem": None}, "cfg")):
+            for extra in ({}, {"pty": True}, {"pty": False, "hide": True}, {"dry": True}, {"warn": True, "echo": True, "hide": "both"}):
+                cases.append({"kind": "reject_real", "via": via, "bad": bad, "async_disown": ad, "extra": extra})
+
     for kwp, cfgp, ws in itertools.product(["absent", None, "pw", ""], [None, "secret"], [False, True]):
         cases.append({"kind": "sudopw", "kw": kwp, "cfg": cfgp, "watchers": ws})
 
@@ -1401,6 +1486,9 @@ def run(ctx):
             lines += rhist_lines(c)
             continue
         if k == "rhist_real":
+            continue
+        if k == "reject_real":
+            lines.append(reject_line(c))
             continue
         if k == "sudopw":
             lines.append("resp %s %s" % ("A" if c["kw"] == "absent" else enc_v(c["kw"]), enc_v(c["cfg"])))
@@ -1441,6 +1529,10 @@ def run(ctx):
                 out.hist["rhist:%s-then-%s" % ("watchers" if had else "none",
                                                "absent" if b["w"] == "absent" else "None" if b["w"] is None else
                                                "empty" if b["w"] == [] else "own")] += 1
+        elif k == "reject_real":
+            out.case(c, True)
+            got, why = check_reject_real(c)
+            out.hist["reject-real:%s:%s" % (c["via"], got)] += 1
         elif k == "rhist_real":
             out.case(c, True)
             m = None
